@@ -930,6 +930,35 @@ func TestVerif_C06_QueryLang(t *testing.T) {
 		run.emit("field", c06Q(c06C(c06G(c06One(c06KW("type", kw), c06Leaf("text", c06Mat{Src: "foo"})))), c06C(c06Leaf("file", c06Mat{Src: "bar"}))), c06Spellings(rng, 4))
 	}
 
+	// (1b) scoping of case: and type:, systematically: inner group with / without its own directive,
+	// directive after the operands it governs, directive in a later or-operand
+	T := func(s string) *c06A { return c06Leaf("text", c06Mat{Src: s}) }
+	pairs := [][2]string{{"yes", "no"}, {"no", "yes"}, {"auto", "yes"}, {"yes", "auto"}, {"no", "auto"}, {"auto", "no"}, {"yes", "yes"}, {"no", "no"}}
+	for _, p := range pairs[:verifkit.Pick(6, 8)] {
+		k1, k2 := c06KW("case", p[0]), c06KW("case", p[1])
+		for _, a := range []*c06A{
+			c06One(k1, T("Foo"), c06G(c06One(k2, T("foo")))),
+			c06One(c06G(c06One(T("foo"), c06G(c06One(T("Bar"), k2)))), k1),
+			c06One(c06G(c06One(k2, T("foo"))), T("Bar")),
+			c06Q(c06C(T("FOO")), c06C(c06G(c06One(T("foo"), c06G(c06Q(c06C(T("Bar")), c06C(T("bar")))))), k1)),
+			c06One(c06Neg(c06G(c06One(k2, c06Leaf("file", c06Mat{Src: "foo"})))), k1, c06Leaf("content", c06Mat{Src: "Bar"})),
+		} {
+			run.emit("scope", a, c06Spellings(rng, 3))
+		}
+	}
+	for _, kw := range []string{"repo", "file"} {
+		ty := c06KW("type", kw)
+		for _, a := range []*c06A{
+			c06Q(c06C(T("bar")), c06C(T("main"), ty)),
+			c06One(T("bar"), c06G(c06One(ty, T("foo")))),
+			c06One(c06Neg(c06G(c06One(ty, c06Leaf("content", c06Mat{Src: "bar"})))), c06Leaf("lang", c06Mat{Src: "go"})),
+			c06One(ty, c06G(c06Q(c06C(T("école")), c06C(c06G(c06One(c06KW("type", "repo"), T("main"))))))),
+			c06Q(c06C(ty, c06Leaf("file", c06Mat{Src: "README"})), c06C(T("Foo"), c06KW("case", "yes")), c06C(c06Leaf("sym", c06Mat{Src: "main"}))),
+		} {
+			run.emit("scope", a, c06Spellings(rng, 3))
+		}
+	}
+
 	// (2) skeletons enumerated by TLC
 	fl := &c06Filler{rng: verifkit.Rng(6002)}
 	fills := verifkit.EnvInt("VERIF_FILLS", 1)
